@@ -246,6 +246,19 @@ class Exec(Engine):
                 q.pc.append(z3.And(0 <= r, r < sq.n, z3.Select(sq.arr, r) == v.t, s.forall(0, r, lambda k: z3.Select(sq.arr, k) != v.t)))
                 yield SInt(r), q
             return
+        if isinstance(o, SSet) and attr == "pop" and not av:
+            if o.member is None:
+                s.may_raise("KeyError", z3.BoolVal(False), p, f"pop:line{n.lineno}", n.lineno)
+                return
+            x = fresh("popped", sort_of(o.ek))
+            y = z3.Const("setx!", sort_of(o.ek))
+            ex = fresh("px", sort_of(o.ek))
+            q = s.may_raise("KeyError", z3.Exists([ex], z3.Select(o.member, ex)), p, f"pop:line{n.lineno}", n.lineno)
+            if q is not None:
+                q.pc.append(z3.Select(o.member, x))
+                s.rebind(n, q, SSet(z3.Lambda([y], z3.And(z3.Select(o.member, y), y != x)), o.ek))
+                yield wrap(x, o.ek), q
+            return
         if isinstance(o, SSet) and attr in ("update", "add"):
             if attr == "add":
                 v = av[0]
@@ -365,6 +378,16 @@ class Exec(Engine):
                 yield SInt(ln), p1
             elif isinstance(v, SConc):
                 yield SInt(len(v.v)), p1
+            elif isinstance(v, SSet):
+                c = fresh("card")
+                p1.pc.append(c >= 0)
+                if v.member is None:
+                    p1.pc.append(c == 0)
+                else:
+                    x = fresh("cx", sort_of(v.ek))
+                    p1.pc.append((c == 0) == z3.Not(z3.Exists([x], z3.Select(v.member, x))))
+                s.abstracted.add("len() of a set: a non-negative integer that is 0 exactly for the empty set (no further cardinality reasoning)")
+                yield SInt(c), p1
             elif isinstance(v, SRec) and v.cls == "val":
                 ln = z3.Int(f"len_rec[{id(v)}]")
                 p1.pc.append(ln >= 0)
@@ -697,6 +720,8 @@ class Exec(Engine):
                 v = SMap.empty(hint[1], hint[2])
             elif hint and isinstance(v, STup) and not v.items and hint[0] == "zip":
                 v = SZip.empty(hint[1])
+            elif hint and isinstance(v, SSet) and v.member is None and hint[0] == "set":
+                v = SSet(z3.K(sort_of(hint[1]), z3.BoolVal(False)), hint[1])
             elif hint and isinstance(v, STup) and not v.items and hint[0] == "list":
                 v = SSeq(fresh("empty", z3.ArraySort(I, sort_of(hint[1]))), 0, hint[1], "list")
             p.bind(target.id, v)
@@ -959,6 +984,8 @@ class Exec(Engine):
             return r
         if isinstance(v, SDict):
             return SDict({k: s.havoc_value(f"{name}_{k}", x) for k, x in v.d.items()})
+        if isinstance(v, SSet) and v.member is not None:
+            return SSet(fresh(name + "_member", z3.ArraySort(sort_of(v.ek), B)), v.ek)
         if isinstance(v, SMap):
             return SMap(fresh(name + "_has", z3.ArraySort(sort_of(v.kk), B)), fresh(name + "_val", z3.ArraySort(sort_of(v.kk), sort_of(v.vk))), v.kk, v.vk)
         if isinstance(v, SZip):
